@@ -1353,6 +1353,82 @@ def check_batch4(fails_out):
     finally:
         shutil.rmtree(d, ignore_errors=True)
 
+    # ---- C06: a reference column (sortable ID) with more than 255 distinct values, then documents without a value, then one
+    # with a value - written as small commits, as one big commit, and merged: the same value for every document
+    for layout in ("small-commits", "one-commit", "optimized"):
+        d = tempfile.mkdtemp(prefix="b4r_")
+        try:
+            from whoosh import columns as _columns
+            sch = fields.Schema(id=fields.ID(stored=True), tag=fields.ID(sortable=_columns.RefBytesColumn()), body=fields.TEXT)
+            ix = FileStorage(d).create_index(sch)
+            model = {}
+            w = ix.writer()
+            for i in range(330):
+                key = u"r%d" % i
+                if i < 280:
+                    tag = u"tag%03d" % i
+                elif i in (300, 310, 329):
+                    tag = u"late%d" % i
+                else:
+                    tag = None
+                if tag is None:
+                    w.add_document(id=key, body=u"alfa")
+                else:
+                    w.add_document(id=key, tag=tag, body=u"alfa")
+                model[key] = tag
+                if layout != "one-commit" and i % 110 == 109:
+                    w.commit(merge=False)
+                    w = ix.writer()
+            w.commit(merge=False)
+            if layout == "optimized":
+                ix.writer().commit(optimize=True)
+            with ix.searcher() as s_:
+                r = s_.reader()
+                cr = r.column_reader("tag")
+                bad = []
+                for docnum, stored in r.iter_docs():
+                    want = model[stored["id"]]
+                    got = cr[docnum]
+                    if got != (want if want is not None else u""):
+                        bad.append((stored["id"], got, want))
+                if bad or r.doc_count() != len(model):
+                    F("C06-refcolumn-layout", "%s: column values of a sortable ID field with 283 distinct values and gaps: (doc, read, written) %r"
+                      % (layout, bad[:4]))
+        except Exception as e:
+            F("C06-refcolumn-layout", "%s: %s: %s | %s" % (layout, type(e).__name__, e, traceback.format_exc()[-300:]))
+        finally:
+            shutil.rmtree(d, ignore_errors=True)
+
+    # ---- C03: a refreshed searcher scores like a fresh one (collection statistics belong to the generation)
+    d = tempfile.mkdtemp(prefix="b4s_")
+    try:
+        from whoosh import scoring
+        ix = FileStorage(d).create_index(small_schema())
+        w = ix.writer()
+        for i in range(6):
+            w.add_document(id=u"s%d" % i, body=u"alfa bravo" if i % 2 else u"alfa alfa charlie")
+        w.commit(merge=False)
+        for wm in (scoring.TF_IDF, scoring.BM25F):
+            held = ix.searcher(weighting=wm())
+            q = query.Or([query.Term("body", u"alfa"), query.Term("body", u"charlie"), query.Term("body", u"bravo")])
+            before = [(h["id"], round(h.score, 6)) for h in held.search(q, limit=None)]
+            w = ix.writer()
+            for i in range(5):
+                w.add_document(id=u"x%s%d" % (wm.__name__, i), body=u"charlie delta" if i else u"bravo")
+            w.commit(merge=False)
+            again = [(h["id"], round(h.score, 6)) for h in held.search(q, limit=None)]
+            refreshed = held.refresh()
+            got = [(h["id"], round(h.score, 6)) for h in refreshed.search(q, limit=None)]
+            with ix.searcher(weighting=wm()) as fresh:
+                exp = [(h["id"], round(h.score, 6)) for h in fresh.search(q, limit=None)]
+            if again != before:
+                F("C03-held-searcher-scores", "%s: a held searcher's scores changed after another writer's commit: %r -> %r" % (wm.__name__, before[:3], again[:3]))
+            if got != exp:
+                F("C03-refresh-scores", "%s: refreshed searcher ranks/scores %r, a fresh searcher %r" % (wm.__name__, got[:4], exp[:4]))
+            refreshed.close()
+    finally:
+        shutil.rmtree(d, ignore_errors=True)
+
 
 def run_deterministic(fails):
     check_batch4(fails)
